@@ -16,6 +16,7 @@ use crate::prog::Case;
 use crate::sim::{mix, Hard};
 
 pub const ENGINE: &str = "dst-1";
+pub const DET_EVERY: u64 = 499;
 
 #[derive(Serialize, Deserialize, Clone, Debug)]
 pub struct ReplayFile {
@@ -45,6 +46,9 @@ pub struct WorkerResult {
     pub policies: BTreeMap<String, u64>,
     pub samples: Vec<serde_json::Value>,
     pub states: Vec<u64>,
+    /// (seed index, event-log hash) of the seeds every worker re-runs for the determinism check
+    #[serde(default)]
+    pub det: Vec<(u64, u64)>,
 }
 
 pub fn fnv(h: &mut u64, x: u64) {
@@ -245,6 +249,20 @@ pub fn worker_main(args: &[String]) -> i32 {
     let marker = format!("{}.cur", out);
     let mut i = from;
     while i < count {
+        if i % DET_EVERY == 7 && (i % stride != offset) {
+            // determinism: every worker process (pinned to a different core) also runs these
+            // seeds; the driver compares the event-log hashes across processes
+            let case = gen::generate(&prop, base + i);
+            std::fs::write(&marker, format!("{}", i)).ok();
+            let hist = run_case(&case);
+            if hist.out.hard.is_none() {
+                res.det.push((i, hist_hash(&hist)));
+            } else {
+                // a condemned run: handled when the owning worker reaches it
+                finish_worker(&mut res, &triggers, &all_traces, &states, &out);
+                std::process::exit(3);
+            }
+        }
         if i % stride != offset {
             i += 1;
             continue;
@@ -260,6 +278,9 @@ pub fn worker_main(args: &[String]) -> i32 {
         let (hist, v) = eval_case(&case);
         res.evaluated += 1;
         res.last_seed = i;
+        if i % DET_EVERY == 7 && hist.out.hard.is_none() {
+            res.det.push((i, hist_hash(&hist)));
+        }
         res.steps += hist.out.steps;
         res.switches += hist.out.switches;
         res.sim_ns += hist.out.sim_ns;
@@ -459,6 +480,7 @@ pub fn drive_main(args: &[String]) -> i32 {
     let wall = t0.elapsed().as_secs_f64();
     // aggregate
     let mut total = WorkerResult::default();
+    let mut det: std::collections::HashMap<u64, Vec<u64>> = std::collections::HashMap::new();
     let mut triggers: HashSet<u64> = HashSet::new();
     let mut states: HashSet<u64> = HashSet::new();
     for k in 0..workers {
@@ -483,6 +505,9 @@ pub fn drive_main(args: &[String]) -> i32 {
                 for t in r.trigger_traces {
                     triggers.insert(t);
                 }
+                for (i, h) in r.det {
+                    det.entry(i).or_default().push(h);
+                }
                 for s in r.states {
                     states.insert(s);
                 }
@@ -500,6 +525,15 @@ pub fn drive_main(args: &[String]) -> i32 {
         }
     }
     std::fs::remove_dir_all(&tmp).ok();
+    // determinism across processes
+    let det_seeds = det.len();
+    let det_runs: usize = det.values().map(|v| v.len()).sum();
+    let mut det_mismatch: Vec<u64> = det.iter().filter(|(_, v)| v.iter().any(|h| *h != v[0])).map(|(i, _)| *i).collect();
+    det_mismatch.sort_unstable();
+    if !det_mismatch.is_empty() {
+        eprintln!("HARNESS ERROR: nondeterminism: seed indices {:?} produced different event logs in different worker processes", &det_mismatch[..det_mismatch.len().min(5)]);
+        harness_error = true;
+    }
     // process aborts are C07 violations attributed to the seed in the marker file
     for (k, cur, st) in aborted.iter().take(1) {
         let case = gen::generate(&prop, base + cur);
@@ -579,6 +613,12 @@ pub fn drive_main(args: &[String]) -> i32 {
             "workers": workers,
             "seed_range": [base, base + count],
             "known_findings_reported": nknown,
+            "determinism": {
+                "rule": format!("every {}th seed is run by all {} worker processes (each pinned to its own core); the hash over the complete event log, all batches and all operation results must be equal", DET_EVERY, workers),
+                "seeds_compared": det_seeds,
+                "runs_compared": det_runs,
+                "mismatches": det_mismatch.len(),
+            },
             "process_aborts": aborted.len(),
             "condemned_runs": hard_exits,
             "workers_stopped_early": gave_up,
